@@ -90,10 +90,11 @@ def gen_segment(rng, nstr):
     return Dd(seg)
 
 
-def gen_value(rng, conv, nstr, x, in_range=True):
+def gen_value(rng, conv, nstr, x, in_range=True, key=None):
     if conv == 'CId':
-        return rng.choice([I(rng.getrandbits(rng.choice([1, 16, 40]))), B(bytes(rng.getrandbits(8) for _ in range(16))),
-                           I(0)])
+        if key in ('b', 'piu', 'siu'):
+            return B(bytes(rng.getrandbits(8) for _ in range(16)))
+        return rng.choice([I(rng.getrandbits(rng.choice([1, 16, 40]))), I(0)])
     if conv == 'CStr':
         return I(rng.randrange(nstr)) if in_range else I(nstr + 5)
     if conv == 'CLogType':
@@ -147,7 +148,7 @@ def gen_case(rng, x, mode):
     nstr = len(strings)
     ev = []
     for k, f, c in x['mandatory']:
-        ev.append((k, gen_value(rng, c, nstr, x)))
+        ev.append((k, gen_value(rng, c, nstr, x, key=k)))
     opt = x['optional']
     if mode == 'random':
         chosen = [o for o in opt if rng.random() < 0.5]
@@ -161,7 +162,7 @@ def gen_case(rng, x, mode):
     else:
         chosen = [o for o in opt if rng.random() < 0.3]
     for k, f, c in chosen:
-        ev.append((k, gen_value(rng, c, nstr, x)))
+        ev.append((k, gen_value(rng, c, nstr, x, key=k)))
     if mode == 'malformed':
         r = rng.random()
         if r < 0.3 and ev:
